@@ -144,6 +144,8 @@ def revalidation(test: ast.expr, attr: str, key_txt: str):
                     cur = a
                 if cur is not None and isinstance(b, ast.Name):
                     return b.id
+                if cur is not None and isinstance(b, ast.Attribute) and isinstance(b.value, ast.Name):
+                    return norm(b)  # a field of the record bound with the key (`buffered.message`)
     return None
 
 
@@ -230,7 +232,7 @@ def atom1(ctx: Ctx, chk) -> None:
                     if aw_between or _await_node(t):
                         continue
                     # the compared value is bound together with the key (same definition node)
-                    vdefs = _def_nodes(g, {v})
+                    vdefs = _def_nodes(g, {v.split('.')[0]})
                     if not any(dn is d for dn in vdefs):
                         continue
                     ok = True
@@ -314,7 +316,7 @@ def _removal_verdict(ctx: Ctx, f, g: CFG, node, key, rnodes, attr: str):
                         aw_between = True
         if aw_between or _await_node(t):
             continue
-        vdefs = _def_nodes(g, {v})
+        vdefs = _def_nodes(g, {v.split('.')[0]})
         if not any(dn is d for dn in vdefs):
             continue
         return True, "re-validated after the await: the entry at the key must still be the one bound with it (identity) before it is removed"
